@@ -76,7 +76,7 @@ pub fn check_pruning(r: &Arc<RedeemNode>, fam: Fam, env: &envs::Env, has_fail: b
     }
     // idempotence
     let pp = prune(&p, fam, env).map_err(|e| ("prune:reprune-fails".to_string(), e))?;
-    if pp.ihr() != p.ihr() || pp.to_vec_with_witness() != p.to_vec_with_witness() {
+    if pp.ihr() != p.ihr() || pp.amr() != p.amr() || pp.to_vec_with_witness() != p.to_vec_with_witness() {
         let show = |x: &RedeemNode| {
             let (a, b) = x.to_vec_with_witness();
             let nodes: Vec<String> = x.post_order_iter::<InternalSharing>().map(|i| format!("{}:{}", i.node.inner(), i.node.arrow())).collect();
@@ -87,8 +87,8 @@ pub fn check_pruning(r: &Arc<RedeemNode>, fam: Fam, env: &envs::Env, has_fail: b
     // round trip of the pruned program through its own encoding
     let (pb, wb) = p.to_vec_with_witness();
     match crate::props::c01::decode_redeem(fam, &pb, &wb) {
-        Ok(d) if d.ihr() == p.ihr() => {}
-        Ok(_) => return Err(("prune:reencode".into(), "pruned program decodes to a different IHR".into())),
+        Ok(d) if d.ihr() == p.ihr() && d.amr() == p.amr() => {}
+        Ok(_) => return Err(("prune:reencode".into(), "pruned program decodes to a different IHR or AMR (its in-memory types are not the ones its serialisation has)".into())),
         Err(e) => return Err(("prune:reencode".into(), format!("pruned program's encoding {} / {} does not decode: {e}", hex(&pb), hex(&wb)))),
     }
     // libsimplicity with all anti-DoS checks
@@ -97,7 +97,7 @@ pub fn check_pruning(r: &Arc<RedeemNode>, fam: Fam, env: &envs::Env, has_fail: b
         let (cv, cp) = c_check(&pb, &wb);
         match (cv, cp) {
             (CVerdict::Accept(roots), Some(mut cp)) => {
-                if roots.cmr != p.cmr().to_byte_array() || roots.ihr != p.ihr().to_byte_array() {
+                if roots.cmr != p.cmr().to_byte_array() || roots.ihr != p.ihr().to_byte_array() || roots.amr != p.amr().to_byte_array() {
                     return Err(("prune:c-roots".into(), "C computes different roots for the pruned program".into()));
                 }
                 let code = cp.eval(CHECK_ALL, Some(env.c_tx_env()));
@@ -135,30 +135,64 @@ fn leg_shared_with_hidden(ctx: &Ctx, out: &mut Out, env: &envs::Env) {
         for x in [n(Sym::Case, 1, 1), n(Sym::Case, 1, 2), n(Sym::Case, 2, 1), n(Sym::AssertL(7), 1, 0), n(Sym::AssertR(7), 1, 0)] {
             for mirror in [false, true] {
                 let (a, b) = if mirror { (3, 2) } else { (2, 3) };
-                let dag: Dag = vec![n(Sym::Witness, 0, 0), n(Sym::Unit, 0, 0), n(Sym::Take, 1, 0), x, n(Sym::Case, a, b), n(Sym::Comp, 0, 4)];
-                let Some(p) = Prog::new(&dag, fam) else { continue };
-                let (assignments, _) = p.witness_assignments(6, 64);
-                for wit in &assignments {
-                    let label = || format!("{} {}", p.render(), wit_str(wit));
-                    if !ctx.begin(leg, &label) {
-                        continue;
-                    }
-                    let Ok(r) = p.to_redeem(wit) else {
-                        ctx.end();
-                        continue;
-                    };
-                    match guard(|| check_pruning(&r, fam, env, false, out)) {
-                        Ok(Ok(true)) => {
-                            out.evaluations += 1;
-                            out.states += 1;
-                            out.nontrivial += 1;
-                            out.sample(leg, || (label(), "prune ok: same CMR and output, witnesses typed, idempotent, own encoding decodes to the same identity root".into()));
+                // selector = a witness, or (the pruned program then has no witness node at all) a constant
+                // pair (inj (pair unit unit)) unit choosing the side that keeps `take u`
+                let mut dags: Vec<Dag> = vec![vec![n(Sym::Witness, 0, 0), n(Sym::Unit, 0, 0), n(Sym::Take, 1, 0), x, n(Sym::Case, a, b), n(Sym::Comp, 0, 4)]];
+                let _ = &mut dags;
+                for inj in [Sym::InjL, Sym::InjR] {
+                    // 0=unit' 1=u 2=take(1) 3=x 4=case 5=pair(0,0) 6=inj(5) 7=pair(6,0) 8=comp(7,4)
+                    let shift = |nd: Node| if nd.sym.arity() == 0 { nd } else { Node { sym: nd.sym, l: nd.l, r: nd.r } };
+                    dags.push(vec![n(Sym::Unit, 0, 0), n(Sym::Unit, 0, 0), n(Sym::Take, 1, 0), shift(x), n(Sym::Case, a, b), n(Sym::Pair, 0, 0), n(inj, 5, 0), n(Sym::Pair, 6, 0), n(Sym::Comp, 7, 4)]);
+                }
+                // a constant selector whose payload has a free summand that only the hidden branch pins
+                // (through the shared u): comp (pair (injl (inj unit')) unit') (case (take u) (take (comp (inj' P) u)))
+                if x.sym == Sym::Case && x.l == 1 && x.r == 1 && !mirror {
+                    for (inner, other) in [(Sym::InjL, Sym::InjR), (Sym::InjR, Sym::InjL)] {
+                        for payload_pair in [true, false] {
+                            let payload = if payload_pair { n(Sym::Pair, 3, 3) } else { n(Sym::InjL, 3, 0) };
+                            dags.push(vec![
+                                n(Sym::Unit, 0, 0),  // 0 unit'
+                                n(Sym::Unit, 0, 0),  // 1 u
+                                n(Sym::Take, 1, 0),  // 2 kept
+                                n(Sym::Unit, 0, 0),  // 3 u_b
+                                payload,             // 4 P
+                                n(other, 4, 0),      // 5 inj' P
+                                n(Sym::Comp, 5, 1),  // 6
+                                n(Sym::Take, 6, 0),  // 7 hidden
+                                n(Sym::Case, 2, 7),  // 8
+                                n(inner, 0, 0),      // 9 inj unit'
+                                n(Sym::InjL, 9, 0),  // 10
+                                n(Sym::Pair, 10, 0), // 11 selector
+                                n(Sym::Comp, 11, 8), // 12
+                            ]);
                         }
-                        Ok(Ok(false)) => out.outcome("unpruned-run-fails"),
-                        Ok(Err((c, d))) => out.violation(&c, leg, label(), d),
-                        Err(pn) => out.violation(&panic_class(&pn), leg, label(), pn),
                     }
-                    ctx.end();
+                }
+                for dag in dags {
+                    let Some(p) = Prog::new(&dag, fam) else { continue };
+                    let (assignments, _) = p.witness_assignments(6, 64);
+                    for wit in &assignments {
+                        let label = || format!("{} {}", p.render(), wit_str(wit));
+                        if !ctx.begin(leg, &label) {
+                            continue;
+                        }
+                        let Ok(r) = p.to_redeem(wit) else {
+                            ctx.end();
+                            continue;
+                        };
+                        match guard(|| check_pruning(&r, fam, env, false, out)) {
+                            Ok(Ok(true)) => {
+                                out.evaluations += 1;
+                                out.states += 1;
+                                out.nontrivial += 1;
+                                out.sample(leg, || (label(), "prune ok: same CMR and output, witnesses typed, idempotent, own encoding decodes to the same identity and annotated roots".into()));
+                            }
+                            Ok(Ok(false)) => out.outcome("unpruned-run-fails"),
+                            Ok(Err((c, d))) => out.violation(&c, leg, label(), d),
+                            Err(pn) => out.violation(&panic_class(&pn), leg, label(), pn),
+                        }
+                        ctx.end();
+                    }
                 }
             }
         }
